@@ -4,7 +4,7 @@
    v = pre ++ r1 is a file (think: the valid one), f = pre ++ r2 another file with the same first
    |pre| bytes (think: the same file with a fault injected after pre).  If the scan of v reaches a
    configuration after k steps, passing only through configurations whose cursor stays at least
-   M = 24 bytes before the end of pre and which are not lexHeaderParam, then the scan of f reaches
+   M = 24 bytes before the end of pre, then the scan of f reaches
    the very same configuration ([valid_scan_transfers]); if what follows the cursor in f is plain
    text and a stray closing brace (white space and an illegal character inside a tag), the items of
    f are the items sent so far followed by the error item just after the offending character,
@@ -41,12 +41,12 @@ Definition before_margin (pre : bstr) (l : lx) : Prop := l_pos l + M <= Z.of_nat
 Theorem valid_scan_transfers pre r1 r2 k st l :
   steps ul ud (pre ++ r1) 0 k LText lex_init = Ok (st, l) -> st <> LDone ->
   (forall j stj lj, (j <= k)%nat -> steps ul ud (pre ++ r1) 0 j LText lex_init = Ok (stj, lj) ->
-     before_margin pre lj /\ ((j < k)%nat -> stj <> LHeaderParam)) ->
+     before_margin pre lj) ->
   steps ul ud (pre ++ r2) 0 k LText lex_init = Ok (st, l).
 Proof.
   intros H Hl Hg. rewrite <- psteps_steps. apply (steps_det ul ud pre r1 r2 0 k LText lex_init st l).
   - rewrite psteps_steps. exact H.
-  - intros j Hj stj lj Hs. rewrite psteps_steps in Hs. destruct (Hg j stj lj Hj Hs) as [Hb Hh]. split; [|exact Hh].
+  - intros j Hj stj lj Hs. rewrite psteps_steps in Hs. pose proof (Hg j stj lj Hj Hs) as Hb.
     unfold good. split; [exact Hb|]. split.
     + destruct (Nat.eq_dec j k) as [->|Hne].
       * rewrite H in Hs. inversion Hs; subst. exact Hl.
@@ -60,7 +60,7 @@ Qed.
 Theorem stray_brace_after_valid_prefix pre r1 r2 k l txt rest fuel :
   steps ul ud (pre ++ r1) 0 k LText lex_init = Ok (LText, l) ->
   (forall j stj lj, (j <= k)%nat -> steps ul ud (pre ++ r1) 0 j LText lex_init = Ok (stj, lj) ->
-     before_margin pre lj /\ ((j < k)%nat -> stj <> LHeaderParam)) ->
+     before_margin pre lj) ->
   drop (Z.to_nat (l_pos l)) (pre ++ r2) = txt ++ 125%N :: rest -> Forall plain txt ->
   let f := pre ++ r2 in
   let e := err_item (l_pos l + Z.of_nat (length txt) + 1) e_close_brace in
@@ -76,7 +76,7 @@ Qed.
 Theorem illegal_char_after_valid_prefix pre r1 r2 k l ws c rest fuel :
   steps ul ud (pre ++ r1) 0 k LText lex_init = Ok (LInsideTag, l) ->
   (forall j stj lj, (j <= k)%nat -> steps ul ud (pre ++ r1) 0 j LText lex_init = Ok (stj, lj) ->
-     before_margin pre lj /\ ((j < k)%nat -> stj <> LHeaderParam)) ->
+     before_margin pre lj) ->
   drop (Z.to_nat (l_pos l)) (pre ++ r2) = ws ++ c :: rest -> Forall space_byte ws -> (c < 128)%N ->
   reaches_default (Z.of_N c) = true -> c <> 10%N ->
   let f := pre ++ r2 in
